@@ -321,6 +321,11 @@ class AST2SCFGTransformer:
         """
         for node in tree:
             self.handle_ast_node(node)
+            if isinstance(node, (ast.Return, ast.Break, ast.Continue)):
+                # Control never falls through these statements: whatever
+                # follows them in the same statement list is unreachable and
+                # must not end up in the current block.
+                break
 
     def handle_ast_node(self, node: type[ast.AST] | ast.stmt) -> None:
         """Dispatch an AST node to handle."""
